@@ -2235,7 +2235,19 @@ rfbProcessClientNormalMessage(rfbClientPtr cl)
     int extClipboardFormats = 0;
 #endif
 
-    if ((n = rfbReadExact(cl, (char *)&msg, 1)) <= 0) {
+#ifdef LIBVNCSERVER_WITH_WEBSOCKETS
+    if (cl->wsctx) {
+        /* A readable socket does not mean that an RFB message has arrived: the bytes may be a
+         * WebSocket control frame (ping/pong), an empty data frame or only part of a frame.
+         * Read the message type without waiting and come back when there is more (the frame
+         * decoder keeps its state) instead of blocking for maxClientWait and dropping the client. */
+        n = rfbReadExactTimeout(cl, (char *)&msg, 1, 0);
+        if (n < 0 && errno == ETIMEDOUT)
+            return;
+    } else
+#endif
+    n = rfbReadExact(cl, (char *)&msg, 1);
+    if (n <= 0) {
         if (n != 0)
             rfbLogPerror("rfbProcessClientNormalMessage: read");
         rfbCloseClient(cl);
